@@ -15,6 +15,7 @@ EXPLANATION = (
     "(R-C04-len-strings) in every len() of the four codecs (and the per-item closures they fold over) each string len() is added together with a 2-byte length prefix; "
     "(R-C04-kinds) every packet kind a codec's encoder has an arm for is one its decoder can produce; (R-C04-zero-length) a reader that accepts remaining length 0 is reachable for such a frame; "
     "(R-C04-props-none) a packet's len() counts the zero property-length byte its writer emits when there are no properties; "
+    "R-C04-len-strings also demands that each PUBLISH len() counts the packet-id bytes under a test of the QoS, as write() emits them. "
     "NOT decided (the bulk of the statement): decode(encode(p)) == p, size() == bytes written, exact consumption for all packet values.")
 ASSUMPTIONS = ["rustc MIR construction and constant evaluation are correct", "rules/mqtt5_properties.json transcribes table 2-4 of the OASIS MQTT 5.0 specification"]
 TECHNIQUE = "static analysis: handler-table extraction from MIR switch arms, constant provenance, writer/reader wire-type sequences, sibling signature comparison"
